@@ -36,6 +36,22 @@ ASSUMPTIONS = ["the in-memory compile of the same source and options is the refe
 SHARD_TIMEOUT = {"quick": 1200, "thorough": 7200}
 BUDGET = {"quick": 6, "thorough": 190}
 
+# programs whose function *starts* with each statement kind (which value gets reference number 0 varies with it)
+FIRST_STATEMENT = [
+    ("while", "export function f (int n) -> int {\n  while (n > 0) {\n    n = n - 2;\n  }\n  return n;\n}\n"),
+    ("do", "export function f (int n) -> int {\n  do {\n    n = n - 3;\n  }\n  while (n > 0)\n  return n;\n}\n"),
+    ("for", "export function f (int n) -> int {\n  for (int i = 0; i < 3; ++i) {\n    n = n + i;\n  }\n  return n;\n}\n"),
+    ("for-empty-init", "export function f (int n) -> int {\n  for (; n < 9; ) {\n    n = n + 4;\n  }\n  return n;\n}\n"),
+    ("if", "export function f (int n) -> int {\n  if (n > 2) {\n    return 1;\n  }\n  return n;\n}\n"),
+    ("if-else", "export function f (int n) -> int {\n  if (n > 2) {\n    n = 1;\n  }\n  else {\n    n = 2;\n  }\n  return n;\n}\n"),
+    ("block", "export function f (int n) -> int {\n  {\n    n = n * 2;\n  }\n  return n;\n}\n"),
+    ("return", "export function f (int n) -> int {\n  return n + 1;\n}\n"),
+    ("return-const", "export function f (int n) -> float {\n  return 2.5;\n}\n"),
+    ("nested-while", "export function f (int n) -> int {\n  while (n > 0) {\n    while (n > 5) {\n      n = n - 5;\n    }\n    n = n - 1;\n  }\n  return n;\n}\n"),
+    ("do-continue", "export function f (int n) -> int {\n  do {\n    n = n - 1;\n    if (n == 4) {\n      continue;\n    }\n    n = n - 1;\n  }\n  while (n > 0)\n  return n;\n}\n"),
+    ("void-while", "int g;\nexport function f (int n) -> void {\n  while (n > 0) {\n    g = g + n;\n    n = n - 1;\n  }\n}\n"),
+]
+
 
 def shards(tier):
     return 16
@@ -80,7 +96,9 @@ def _check_program(R, rng, tmp, src, calls, label):
     for opt in (False, True):
         R.count("programs")
         comp = diff.Compiled(src, optimize=opt)
-        out_name = "p_O%d.nslir" % int(opt)
+        # file names: the unoptimised module is stored as prog.nslir, the optimised one under a name with another / no
+        # suffix right next to it (a loader that guesses suffixes must not confuse them)
+        out_name = "prog.nslir" if not opt else rng.choice(["prog.O1", "prog", "prog.v2.nslir", "prog.nslir.O1"])
         rc, out = runner.nslc(tmp, "p.nsl", out_name, optimize=opt)
         R.count("nslc_processes")
         stored = rc == 0 and os.path.exists(os.path.join(tmp, out_name)) and os.path.getsize(os.path.join(tmp, out_name)) > 0
@@ -182,6 +200,12 @@ def _check_program(R, rng, tmp, src, calls, label):
 def run_shard(tier, seed, shard, n, R):
     tmp = tempfile.mkdtemp(prefix="nslverif_c17_")
     try:
+        for i, (kind, src0) in enumerate(FIRST_STATEMENT):
+            if i % n != shard:
+                continue
+            gl = {"g": 1} if "int g;" in src0 else {}
+            check_program(R, random.Random(i), tmp, src0, [("f", {"n": v}, gl) for v in (0, 3, 7)], "first statement: " + kind)
+            R.count("first_statement_programs")
         for j in range(BUDGET[tier]):
             s = (seed * 1000003 + shard) * 100000 + j
             rng = random.Random(s)
